@@ -64,7 +64,7 @@ fn corpus_case(rng: &mut Rng, small: bool, sel: usize) -> ConnCase {
 
 fn ctl(base: ConnCase) -> CtlCase {
     let end = base_mode(&base);
-    CtlCase { write_err: None, base, cut: None, end, handlers: Handlers::Sequential, fresh: false, vanish_first: 0 }
+    CtlCase { write_err: None, base, cut: None, end, handlers: Handlers::Sequential, fresh: false, vanish_first: 0, vanish_data: vec![] }
 }
 
 fn obs_key(o: &Outcome) -> (Vec<String>, Vec<u8>, bool, Vec<String>) {
@@ -334,4 +334,23 @@ pub fn vanish_family(id0: usize, rng: &mut Rng, out: &mut Vec<String>) {
     c.fresh = true;
     let o = execute(&c, &default_cfg(rng));
     out.push(line_of(id0, &c, &o, &format!("i_fam=vanish vanish={} panicked={}", c.vanish_first, if o.panicked { 1 } else { 0 })));
+}
+
+/// C02 (peer address): clients that send one or two complete requests and reset before the server
+/// looks at the accepted socket (`peer_addr` fails, the queued bytes stay readable), then an
+/// ordinary client.  Whatever is delivered on this TCP listener must carry a peer address.
+pub fn vanishdata_family(id0: usize, rng: &mut Rng, out: &mut Vec<String>) {
+    let mut base = g::gen_mixed(rng);
+    base.mode = Mode::HalfClose;
+    no_panic_script(&mut base);
+    let mut c = ctl(base);
+    c.vanish_first = rng.range(1, 3);
+    c.vanish_data = if rng.chance(1, 2) {
+        b"GET /gone HTTP/1.1\r\nHost: gone\r\n\r\n".to_vec()
+    } else {
+        b"GET /gone/1 HTTP/1.1\r\nHost: gone\r\n\r\nPOST /gone/2 HTTP/1.0\r\nContent-Length: 3\r\n\r\nabc".to_vec()
+    };
+    c.fresh = true;
+    let o = execute(&c, &default_cfg(rng));
+    out.push(line_of(id0, &c, &o, &format!("i_fam=vanishdata vanish={} panicked={}", c.vanish_first, if o.panicked { 1 } else { 0 })));
 }
